@@ -322,7 +322,8 @@ fn connect_case(transport: u8, compressed: bool, tokio_impl: bool, sets: &[Set],
                 want_isi = r.isi();
                 want_isi.udpport = 0;
             } else {
-                let la = match transport { 2 => free_udp_addr(), 3 => free_udp_addr_on("[::]")?, _ => free_udp_addr_on("[::1]")? };
+                // (5: the local port NUMBER equals the remote's, on another loopback address)
+                let la = match transport { 2 => free_udp_addr(), 3 => free_udp_addr_on("[::]")?, 5 => std::net::SocketAddr::from(([127, 0, 0, 2], peer.local_addr().unwrap().port())), _ => free_udp_addr_on("[::1]")? };
                 b = b.udp(peer.local_addr().unwrap(), Some(la));
                 let mut r = Builder::default();
                 for s in sets { r = apply(r, s); }
@@ -392,15 +393,17 @@ pub fn run(tier: Tier, replay: Option<String>) -> i32 {
     // connect part
     let mut connects = 0u64;
     let (dual_stack, v6_loopback) = v6_usable();
-    for transport in 0..5u8 {
-        if (transport == 3 && !dual_stack) || (transport == 4 && !v6_loopback) { continue; }
+    // can this host bind 127.0.0.2 (any address of 127/8 is loopback on Linux)?
+    let second_loopback = std::net::UdpSocket::bind("127.0.0.2:0").is_ok();
+    for transport in 0..6u8 {
+        if (transport == 3 && !dual_stack) || (transport == 4 && !v6_loopback) || (transport == 5 && !second_loopback) { continue; }
         for compressed in [true, false] {
             for tokio_impl in [false, true] {
                 for (cname, sets) in isi_configs() {
                   for mode_first in [false, true] {
                     connects += 1;
                     acc.eval();
-                    let tname = ["tcp", "udp-without-local-address", "udp-with-local-address", "udp-with-ipv6-wildcard-local-address-to-ipv4-peer", "udp-ipv6-loopback-both-ends"][transport as usize];
+                    let tname = ["tcp", "udp-without-local-address", "udp-with-local-address", "udp-with-ipv6-wildcard-local-address-to-ipv4-peer", "udp-ipv6-loopback-both-ends", "udp-local-port-number-equals-the-remote-port"][transport as usize];
                     let label = format!("{tname} {} {} isi={cname} mode chosen {}", if compressed { "compressed" } else { "uncompressed" }, if tokio_impl { "connect_async" } else { "connect_blocking" }, if mode_first { "first" } else { "last" });
                     let replay = json!({"site": "connect", "case": label});
                     match guard(|| connect_case(transport, compressed, tokio_impl, &sets, mode_first)) {
@@ -486,7 +489,7 @@ pub fn run(tier: Tier, replay: Option<String>) -> i32 {
     let _ = extra.insert("host_carries_ipv6_loopback".into(), json!(v6_loopback));
     crate::report::finish(crate::report::Outcome {
         property: "C18".into(), tier, level: "model_checking", acc,
-        rule: format!("all builder states reachable with a {}-setter alphabet ({} flag helpers on/off, wholesale flags x4 (one with the unnamed bits set), prefix x2, interval x3, iname x2, admin x2, reqi x3, tcp, udp without a local address and with 4 (quick) / 8 (thorough) (remote, local) address pairs across both address families, compressed, uncompressed, relay); every transition replays the setter history on a fresh Builder and compares isi() with a reference builder; plus {connects} connects (tcp / udp without / with local address - IPv4, IPv6 wildcard towards an IPv4 peer, IPv6 loopback where the host carries them - x mode x blocking/tokio x 12 ISI configurations incl. a builder that was a relay builder before and every option unrelated to the ISI x size mode chosen first / last); every subset of the 8 unrelated options on 3 base builders against loopback peers; plus names and passwords of every length 0..=40, with multi-byte characters / carets at every offset 0..=20, and every string of the text generator for a 16-byte field (ten families, lengths 0..=32, characters of no code page, texts of 2^8..2^17 characters)", alpha.len(), if tier == Tier::Thorough { 10 } else { 5 }),
+        rule: format!("all builder states reachable with a {}-setter alphabet ({} flag helpers on/off, wholesale flags x4 (one with the unnamed bits set), prefix x2, interval x3, iname x2, admin x2, reqi x3, tcp, udp without a local address and with 4 (quick) / 8 (thorough) (remote, local) address pairs across both address families, compressed, uncompressed, relay); every transition replays the setter history on a fresh Builder and compares isi() with a reference builder; plus {connects} connects (tcp / udp without / with local address - IPv4, IPv6 wildcard towards an IPv4 peer, IPv6 loopback where the host carries them, a local port number equal to the remote's - x mode x blocking/tokio x 12 ISI configurations incl. a builder that was a relay builder before and every option unrelated to the ISI x size mode chosen first / last); every subset of the 8 unrelated options on 3 base builders against loopback peers; plus names and passwords of every length 0..=40, with multi-byte characters / carets at every offset 0..=20, and every string of the text generator for a 16-byte field (ten families, lengths 0..=32, characters of no code page, texts of 2^8..2^17 characters)", alpha.len(), if tier == Tier::Thorough { 10 } else { 5 }),
         exhaustive: true, extra,
         assumptions: vec!["state key = Debug rendering of the real Builder + the reference ISI".into(), "UDP without a local address is expected to announce UDPPort 0 (LFS then replies to the source port)".into()],
         started,
